@@ -5,7 +5,7 @@ package schema
 // Contracts for the deductive checks in /verif (comment-only; no code).
 // Property C05: advertisement signatures verify exactly what was signed, and by whom.
 
-//@ nonnil log
+//@ nonnil log AdvertisementPrototype
 
 // Links inside an advertisement are CID links (what the IPLD codecs produce);
 // the payload functions assert that type without a check.
@@ -174,3 +174,15 @@ package schema
 //@   requires r != nil
 //@   ensures old(r.codec) != nil ==> result == old(r.codec)
 //@   ensures old(r.codec) == nil ==> content(result) == content(epSignatureCodec)
+
+// Decoding (C05: an advertisement that was signed verifies after any encode/decode round trip): the
+// advertisement handed out is the value the node binds to, as it is - no field is rewritten on the way.
+//@ func UnwrapAdvertisement
+//@   property C05
+//@   requires node != nil
+//@   readonly
+//@   at call NewBuilder: after assume result != nil
+//@   ghost uw := zero("any")
+//@   at call Unwrap: after ghost uw := result
+//@   ensures-local result1 == nil ==> typeis(uw, "*schema.Advertisement") && payload(uw) == result0 && result0 != nil
+//@   ensures result1 != nil ==> result0 == nil
